@@ -249,7 +249,7 @@ def rule_qsl(ctx, rule):
     for query, exp in QSL_CELLS:
         n += 1
         try:
-            got = [tuple(x) for x in run_function(repo, it, [query])]
+            got = [tuple(x) for x in __import__("uralverif.microeval", fromlist=["as_list"]).as_list(repo, run_function(repo, it, [query]))]
         except Unknown as e:
             ctx.undecided(rule, "safe_qsl_iter(%r): %s" % (query, e))
             continue
@@ -368,7 +368,7 @@ def netloc_template(ctx, rule):
 
 
 def normpath_table(ctx, rule, maxlen=4):
-    """normpath interpreted on every path of <= maxlen segments over {a, b, '.', '..', ''} against an
+    """normpath interpreted on every path of <= maxlen segments over {a, 'c:', '.', '..', ''} against an
     independent RFC 3986 5.2.4 reference (slashes squeezed first, trailing slash dropped as normpath documents)."""
     import itertools
     from ..microeval import run_function
@@ -396,7 +396,8 @@ def normpath_table(ctx, rule, maxlen=4):
     n = 0
     bad = None
     for L in range(1, maxlen + 1):
-        for tup in itertools.product(("a", "b", ".", "..", ""), repeat=L):
+        # 'c:' stands for a segment that ends like a scheme (web.archive.org/web/2019/http://...): squeezing is blind to it
+        for tup in itertools.product(("a", "c:", ".", "..", ""), repeat=L):
             p = "/" + "/".join(tup)
             n += 1
             try:
